@@ -8,7 +8,7 @@ IDX = {}
 # harnesses whose body only exists under Kani (recorder stubs / uninterpreted estimator / wait stub)
 KANI_ONLY = {"c06_new_wiring", "c19_async_new_wiring", "c10_wait_barrier", "c10_wait_vs_clear", "c10_wait_inflight",
              "c13_tinylfu_new", "c07_add_rule_n2", "c07_add_rule_n3", "c17_add_metrics_n2", "c17_add_metrics_n3",
-             "c19_async_client_remove_wiring",
+             "c19_async_client_remove_wiring", "c19_async_get_records",
              }
 
 
@@ -291,6 +291,11 @@ H("C19", "c19_async_client_remove_wiring", "cache::r#async", ACF, ACB + "; try_r
 H("C19", "c19_async_client_lookup", "cache::r#async", ACF, ACB + "; get / get_mut on an open or closed cache: hit iff resident and TTL not elapsed; hit/miss counted once", timeout=2400, **AKW)
 H("C19", "c19_async_client_clear", "cache::r#async", ACF, ACB + "; clear on an open or closed cache", timeout=1800, **AKW)
 H("C19", "c19_async_client_remove", "cache::r#async", ACF, ACB + "; try_remove over the real store", timeout=5400, mem_gb=28, tier="thorough", **AKW)
+GRB = ACB.replace("buffer_items 64", "buffer_items 1") + "; get / get_mut on an open or closed cache: AsyncRingStripe::push -> AsyncLFUPolicy::push -> select!{send, default} on the policy's unbounded channel (FIFO contract): one batch [k], KeepGets + 1"
+H("C19", "c19_async_get_records", "cache::r#async", ACF + ["AsyncRingStripe::push (ring full)", "AsyncLFUPolicy::push"], GRB, timeout=2400, **AKW)
+H("C15", "c15_async_get_records", "cache::r#async", ACF + ["AsyncRingStripe::push (ring full)", "AsyncLFUPolicy::push"], GRB, timeout=2400, alias_of="c19_async_get_records", **AKW)
+H("C17", "c17_async_get_records", "cache::r#async", ACF + ["AsyncRingStripe::push (ring full)", "AsyncLFUPolicy::push"], GRB + "; gets_kept / gets_dropped accounting of the async flavour", timeout=2400, alias_of="c19_async_get_records", **AKW)
+IDX["C15"]["assumptions"] += [MREC, ARCD, "async flavour: async_channel::Sender::try_send replaced by a FIFO contract, one poll with a no-op waker, futures select! shuffle replaced by the identity (see C19)"]
 H("C09", "c09_async_client_insert", "cache::r#async", ACF, ACB + "; insert_if_present / vetoed updates through the async flavour's own copy of try_update", timeout=1800, alias_of="c19_async_client_insert", **AKW)
 IDX["C09"]["assumptions"] += [MREC, ARCD]
 
